@@ -9,6 +9,7 @@ as graph.query(text) parsed afresh in isolation; across configurations; and for 
 from __future__ import annotations
 
 import copy
+import json
 
 from sim.rng import Stream
 from sim.terms import EX, XSD, T, key, u
@@ -76,7 +77,7 @@ def r_term(t, st):
             return "<" + st["ns"] + t[1][len(EX) :] + ">"
         return "<" + t[1] + ">"
     if t[0] == "path":
-        return t[1].replace("P", r_term(["u", P], st)).replace("Q", r_term(["u", Q], st))
+        return t[1].replace("P", r_term(["u", P], st)).replace("Q", r_term(["u", Q], st)).replace("R", r_term(["u", R_], st))
     if t[0] == "l":
         lex = t[1].replace("\\", "\\\\").replace('"', '\\"')
         if len(t) > 3 and t[3] == XSD + "integer":
@@ -122,7 +123,7 @@ def r_elems(elems, st):
         elif t == "filter":
             out.append("FILTER " + r_expr(e["e"], st))
         elif t == "bind":
-            out.append(f"BIND({r_term(e['e'], st)} AS {r_term(V(e['var']), st)})")
+            out.append(f"BIND({'IRI(' + json.dumps(e['e'][1]) + ')' if e['e'][0] == 'iri' else r_term(e['e'], st)} AS {r_term(V(e['var']), st)})")
         elif t == "values":
             out.append(f"VALUES {r_term(V(e['var']), st)} {{ " + " ".join("UNDEF" if v is None else r_term(v, st) for v in e["vals"]) + " }")
         elif t == "subselect":
@@ -183,6 +184,9 @@ def _bgp(g, n=None):
         [[V("s"), ["u", Q], g.pick(OBJS_C)]],
         [[V("s"), ["path", g.choice(["P+", "P*", "P/Q", "(P|Q)", "^P", "P?", "(P|^Q)+"])], V("o")]],
         [[V("s"), ["u", P], V("o")], [V("o"), ["path", g.choice(["Q*", "P+"])], V("z")]],
+        # a sequence whose last step can reach the same node along two predicates: both ways count
+        [[V("s"), ["path", g.choice(["P/(Q|R)", "P/!P", "(P|Q)/(Q|R)"])], V("o")]],
+        [[V("s"), ["path", g.choice(["P/(Q|R)", "P/!P"])], g.pick(SUBS_C[:3])]],
     ]
     return {"t": "bgp", "triples": copy.deepcopy(g.choice(shapes))}
 
@@ -222,7 +226,7 @@ def _query(g):
             where.append({"t": "filter", "e": g.choice([["!=", V("s"), V("o")], ["=", V("o"), g.pick(OBJS_C)], ["bound", "x"], ["!bound", "x"], ["isIRI", "o"], ["exists", [[V(g.choice(["s", "o"])), g.pick(PREDS), V("e1")]]], ["notexists", [[V("s"), g.pick(PREDS), V("e1")]]]])})
         elif k == "bind":
             if not any(e["t"] == "bind" for e in where):
-                where.append({"t": "bind", "var": "bv", "e": g.choice([V("s"), g.pick(OBJS_C)])})
+                where.append({"t": "bind", "var": "bv", "e": g.choice([V("s"), g.pick(OBJS_C), ["iri", "rel"]])})
         elif k == "values":
             where.append({"t": "values", "var": g.choice(["s", "o", "vv"]), "vals": [g.choice(SUBS_C + [None]) for _ in range(g.randint(1, 3))]})
         elif k == "subselect":
@@ -321,6 +325,11 @@ def generate(seed, tier):
         t = [g.pick(SUBS), g.pick(PREDS), g.pick(OBJS)]
         if t not in data:
             data.append(t)
+    if g.chance(0.35):
+        # a diamond: a -p-> b and two different predicates from b to c
+        for t in ([u("a"), ["u", P], u("b")], [u("b"), ["u", Q], u("c")], [u("b"), ["u", R_], u("c")]):
+            if t not in data:
+                data.append(t)
     data2 = [[g.pick(SUBS), g.pick(PREDS), g.pick(OBJS)] for _ in range(g.randint(1, 5))]
     nq = g.randint(1, 3)
     queries = [_query(g) for _ in range(nq)]
@@ -351,6 +360,8 @@ def generate(seed, tier):
                 v = g.choice(q["_outer_vars"])
                 ib = {v: g.pick(SUBS_C) if v != "p" else g.pick(PREDS)}
             ops.append({"uid": uid, "k": "open", "r": nr, "q": qi, "on": g.choice(["memory", "memory", "memory", "other", "simple", "auditable"]), "ib": ib})
+            if g.chance(0.15):
+                ops[-1]["base"] = g.choice(["http://one.example/", "http://two.example/dir/"])
             live.append(nr)
         elif kind == "rewrite":
             rw = _rewrites(g, q)
@@ -435,13 +446,16 @@ def execute(trace, ctx):
     def ib_of(ib):
         return {Variable(k): T(v) for k, v in ib.items()} if ib else None
 
-    def fresh(qi, on, ib=None):
+    def fresh(qi, on, ib=None, base=None):
         # a freshly parsed evaluation, in isolation
+        if base is not None:
+            # (base= at evaluation time: the reference is a freshly *prepared* query evaluated with the same arguments)
+            return _rows(graphs[on].query(prepareQuery(texts[qi]), initBindings=ib_of(ib), base=base))
         return _rows(graphs[on].query(texts[qi], initBindings=ib_of(ib)))
 
     def finish(rid):
         r = readers.pop(rid)
-        exp = fresh(r["q"], r["on"], r["ib"])
+        exp = fresh(r["q"], r["on"], r["ib"], r.get("base"))
         got = sorted(r["rows"], key=repr)
         if exp:
             ctx.probe("nonempty-comparison")
@@ -464,17 +478,21 @@ def execute(trace, ctx):
             if op.get("ib"):
                 ctx.probe("initBindings-evaluation")
             try:
-                it = iter(graphs[op["on"]].query(qo, initBindings=ib_of(op.get("ib"))))
+                if op.get("base"):
+                    ctx.probe("evaluation-with-base-argument")
+                    it = iter(graphs[op["on"]].query(qo, initBindings=ib_of(op.get("ib")), base=op["base"]))
+                else:
+                    it = iter(graphs[op["on"]].query(qo, initBindings=ib_of(op.get("ib"))))
             except Exception as e:
                 # must fail the same way when parsed afresh
                 try:
-                    fresh(op["q"], op["on"], op.get("ib"))
+                    fresh(op["q"], op["on"], op.get("ib"), op.get("base"))
                     ctx.deviation("C15.prepared-raises", f"prepared query raised {type(e).__name__}: {e}, fresh evaluation works:\n{texts[op['q']]}")
                 except Exception:
                     pass
                 continue
             started[0] += 1
-            readers[op["r"]] = {"it": it, "q": op["q"], "on": op["on"], "ib": op.get("ib"), "rows": [], "started": started[0]}
+            readers[op["r"]] = {"it": it, "q": op["q"], "on": op["on"], "ib": op.get("ib"), "base": op.get("base"), "rows": [], "started": started[0]}
             ctx.log("open", f"r{op['r']} q{op['q']} {op['on']} ib={op.get('ib')}")
         elif k in ("step", "drain"):
             r = readers.get(op["r"])
